@@ -29,7 +29,7 @@ CLAIMS = {
    "DESIGN.md section 4 C16, E3"),
  "C19": ("other",
    "structural rules (ordering, who-may-write, call context, recognised arithmetic idiom) on bash's own parse (`declare -f` dump) of bin/newpolicy.sh and the sibling shell scripts; nothing is executed",
-   "Necessary structure of the property decided on every run: the lock descriptor is opened and flock'ed (exclusive, non-blocking) before anything else and `main` is the only top-level command; `current` is written only in handle_success, which is called only on the success branch of the compiler invocation; the rename of `next` precedes the link switch and the link targets $POLICY; the next number is max(POLICY file, link)+1. It does not decide the semantic outcome at each kill point, flock semantics or the arithmetic on strings read at run time.",
+   "Necessary structure of the property decided on every run: the lock descriptor is opened and flock'ed (exclusive, non-blocking) before anything else, `main` is the only top-level command and the lock descriptor is never unlocked, closed or re-opened afterwards; the POLICY number is committed and pushed before the directory is renamed; `current` is written only in handle_success, which is called only on the success branch of the compiler invocation; the rename of `next` precedes the link switch and the link targets $POLICY (rm + ln -s, or the atomic ln -sfn tmp + mv -T); the next number is max(POLICY file, link)+1. It does not decide the semantic outcome at each kill point, flock semantics or the arithmetic on strings read at run time.",
    "Trusted: bash's parser/pretty-printer; documented semantics of rm/ln/mv/flock. Non-shell scripts under bin/ are listed as not analysed.",
    "DESIGN.md section 4 C19, E8"),
  "C13": ("other",
